@@ -40,6 +40,9 @@ use vh::fontgen::{
 use vh::sup::{guarded, panic_key, Outcome};
 use vh::util::{read_ndjson, repo_fonts, NdWriter};
 
+#[path = "c12_instance/cff2.rs"]
+mod cff2;
+
 // =============================================================================================
 // independent readers
 // =============================================================================================
@@ -185,6 +188,8 @@ struct RFont {
     hhea: Vec<u8>,
     head_box: [i16; 4],
     head_flags: u16,
+    /// the CFF2 table, if the font has one
+    cff2: Option<Vec<u8>>,
 }
 
 fn read_font(data: &[u8]) -> Result<RFont, String> {
@@ -231,6 +236,7 @@ fn read_font(data: &[u8]) -> Result<RFont, String> {
         hhea: hhea.to_vec(),
         head_box: [bi16(head, 36).ok_or("head")?, bi16(head, 38).ok_or("head")?, bi16(head, 40).ok_or("head")?, bi16(head, 42).ok_or("head")?],
         head_flags: be16(head, 16).ok_or("head")?,
+        cff2: table_bytes(data, &dir, "CFF2").map(|b| b.to_vec()),
     })
 }
 
@@ -765,6 +771,64 @@ struct SpecSide<'a> {
     expect: Option<&'a Value>,
     norm: Option<&'a Value>,
     ntol: Value,
+    /// generation 3 (CFF2): the kind of every glyph in the generator's vocabulary, its number of stem hints
+    kinds: Option<&'a Value>,
+    stems: Option<&'a Value>,
+}
+
+fn subr_table(subrs: &[Vec<u8>]) -> Value {
+    Value::Array(subrs.iter().enumerate().map(|(i, b)| json!({"i": i, "b": b})).collect())
+}
+
+/// One CffGlyph event per glyph of a CFF2 font: the source charstring with what the charstring machine
+/// needs (subroutines, region lists per ItemVariationData, the vsindex entry of every Private DICT, the
+/// glyph's Font DICT - all from the harness' own reader) and the written charstring.
+#[allow(clippy::too_many_arguments)]
+fn emit_cff_glyphs(
+    r: &mut Rec,
+    case: &str,
+    sc: &cff2::RCff2,
+    oc: &cff2::RCff2,
+    coords: &Value,
+    norm: &Value,
+    reported: &[i64],
+    ntol: &Value,
+    glyph_limit: usize,
+    spec: &SpecSide,
+) {
+    let Some(vs) = &sc.vstore else { return };
+    let regions: Vec<Vec<&Vec<[i16; 3]>>> = vs
+        .ivds
+        .iter()
+        .map(|d| d.iter().filter_map(|ri| vs.regions.get(*ri as usize)).collect())
+        .collect();
+    // a region index outside the region list: not a font the specification speaks about
+    if regions.iter().zip(vs.ivds.iter()).any(|(a, b)| a.len() != b.len()) {
+        return;
+    }
+    let fd_dvs: Vec<i64> = sc.fds.iter().map(|f| f.vsindex).collect();
+    let gs = subr_table(&sc.gsubrs);
+    let ogs = subr_table(&oc.gsubrs);
+    for gid in 0..sc.glyphs.len().min(glyph_limit) {
+        let (fd, ofd) = (sc.sel[gid], oc.sel[gid]);
+        if fd >= sc.fds.len() || ofd >= oc.fds.len() {
+            continue;
+        }
+        let kind = spec.kinds.and_then(|k| k.get(gid)).and_then(|k| k.as_str()).unwrap_or("cff2");
+        r.ev(
+            case,
+            "CffGlyph",
+            json!({"gid": gid, "kind": kind, "fd": fd, "fdDvs": fd_dvs, "nG": sc.gsubrs.len(), "nL": sc.fds[fd].lsubrs.len(),
+                   "gsubrs": gs, "lsubrs": subr_table(&sc.fds[fd].lsubrs), "regions": regions, "coords": coords,
+                   "code": sc.glyphs[gid],
+                   "exp": spec.expect.and_then(|x| x.get(gid)).cloned().unwrap_or_else(|| json!([])),
+                   "generated": spec.expect.is_some(),
+                   "stems": spec.stems.and_then(|k| k.get(gid)).and_then(|k| k.as_i64()).unwrap_or(0),
+                   "norm": norm, "reported": reported, "ntol": ntol}),
+            json!({"code": oc.glyphs[gid], "nG": oc.gsubrs.len(), "nL": oc.fds[ofd].lsubrs.len(), "gsubrs": ogs,
+                   "lsubrs": subr_table(&oc.fds[ofd].lsubrs)}),
+        );
+    }
 }
 
 /// Events for one instance of one source font.
@@ -807,10 +871,32 @@ fn emit_instance(
             Some(b) => [b[0].min(v[0]), b[1].min(v[1]), b[2].max(v[2]), b[3].max(v[3])],
         });
     }
+    // CFF2: both tables through the harness' own reader
+    let src_cff = src.cff2.as_deref().map(cff2::parse_cff2);
+    let out_cff = of.cff2.as_deref().map(cff2::parse_cff2);
+    if let (Some(Some(_)), Some(None) | None) = (&src_cff, &out_cff) {
+        r.ev(case, "Failed", json!({"user": user, "stage": "read-output", "generated": expect.is_some()}), json!({"err": "Panic:unreadable output: CFF2 table"}));
+        return;
+    }
+    let (n_src, n_out) = match (&src_cff, &out_cff) {
+        (Some(Some(s)), Some(Some(o))) => (s.glyphs.len(), o.glyphs.len()),
+        _ => (src.glyphs.len(), of.glyphs.len()),
+    };
+    let (cff_vstore, cff_priv_var) = match &out_cff {
+        Some(Some(o)) => (o.vstore.is_some(), o.fds.iter().any(|f| f.variable)),
+        _ => (false, false),
+    };
     r.ev(case, "Static", json!({"user": user}), json!({"tags": of.tags, "isVariable": is_var, "loads": loads,
-                                                          "glyphs": of.glyphs.len(), "srcGlyphs": src.glyphs.len(),
+                                                          "glyphs": n_out, "srcGlyphs": n_src,
                                                           "head": if of.glyphs.is_empty() { json!([]) } else { json!(of.head_box) },
-                                                          "ubox": ubox.map(|b| json!(b)).unwrap_or_else(|| json!([]))}));
+                                                          "ubox": ubox.map(|b| json!(b)).unwrap_or_else(|| json!([])),
+                                                          "cffVstore": cff_vstore, "cffPrivVar": cff_priv_var}));
+    if n_src != n_out {
+        return;
+    }
+    if let (Some(Some(sc)), Some(Some(oc))) = (&src_cff, &out_cff) {
+        emit_cff_glyphs(r, case, sc, oc, &coords, &norm, reported, &ntol, glyph_limit, spec);
+    }
     if of.glyphs.len() != src.glyphs.len() || of.metrics.len() != src.metrics.len() {
         return;
     }
@@ -1227,12 +1313,60 @@ fn build_case_font2(c: &Value) -> Vec<u8> {
     f.build()
 }
 
+/// Generation 3: a CFF2 variable font (OTTO) from an abstract font of MC_Cff2Instance. Charstrings and
+/// subroutines are the bytes the specification encoded; the harness only lays the tables out.
+fn build_case_font3(c: &Value) -> Vec<u8> {
+    let naxes = c["naxes"].as_u64().unwrap() as usize;
+    let regions: Vec<Vec<[i16; 3]>> = c["regions"]
+        .as_array()
+        .unwrap()
+        .iter()
+        .map(|r| r.as_array().unwrap().iter().map(|a| { let v = ivec(a); [v[0] as i16, v[1] as i16, v[2] as i16] }).collect())
+        .collect();
+    let blist = |v: &Value| -> Vec<Vec<u8>> { v.as_array().unwrap().iter().map(bvec).collect() };
+    let spec = cff2::Cff2Spec {
+        axis_count: naxes as u16,
+        regions,
+        ivds: c["ivds"].as_array().unwrap().iter().map(|d| ivec(d).into_iter().map(|x| x as u16).collect()).collect(),
+        fds: c["fds"]
+            .as_array()
+            .unwrap()
+            .iter()
+            .map(|f| cff2::FdSpec {
+                vsindex: f["dvs"].as_i64().filter(|v| *v >= 0).map(|v| v as u16),
+                lsubrs: blist(&f["lsubrs"]),
+            })
+            .collect(),
+        sel: ivec(&c["sel"]).into_iter().map(|x| x as u8).collect(),
+        sel_fmt: c["selFmt"].as_u64().unwrap() as u8,
+        gsubrs: blist(&c["gsubrs"]),
+        glyphs: blist(&c["glyphs"]),
+    };
+    let n = spec.glyphs.len();
+    let metrics: Vec<(u16, i16)> = (0..n).map(|g| (500 + 10 * g as u16, 10 + g as i16)).collect();
+    let pairs: Vec<(u32, u16)> = (1..n).map(|g| (0x40 + g as u32, g as u16)).collect();
+    let tables: Vec<(String, Vec<u8>)> = vec![
+        ("head".into(), vh::fontgen::head(1000, false, (0, -200, 1000, 800))),
+        ("hhea".into(), vh::fontgen::hhea(n as u16, 800, -200, 1000)),
+        ("maxp".into(), vh::fontgen::maxp_cff(n as u16)),
+        ("OS/2".into(), vh::fontgen::os2_v4(0x20, 0xFFFF)),
+        ("hmtx".into(), vh::fontgen::hmtx(&metrics, &[])),
+        ("cmap".into(), vh::fontgen::cmap_format12(&pairs)),
+        ("name".into(), vh::fontgen::name(&[(1, "Verif"), (2, "Regular"), (4, "Verif Regular"), (6, "Verif-Regular")])),
+        ("post".into(), vh::fontgen::post_v3()),
+        ("CFF2".into(), cff2::build_cff2(&spec)),
+        ("fvar".into(), fvar_bytes(naxes)),
+    ];
+    vh::fontgen::build_sfnt(0x4F54544F, &tables)
+}
+
 fn replay(cases: &str, out: &str, dump_dir: Option<&str>) {
     let cases = read_ndjson(cases);
     let mut r = Rec { w: NdWriter::create(out), i: 0, instances: 0, panics: 0, failed: 0 };
     for (ci, c) in cases.iter().enumerate() {
         let gen2 = c["gen"].as_u64() == Some(2);
-        let font = if gen2 { build_case_font2(c) } else { build_case_font(c) };
+        let gen3 = c["gen"].as_u64() == Some(3);
+        let font = if gen3 { build_case_font3(c) } else if gen2 { build_case_font2(c) } else { build_case_font(c) };
         // user values: generation 1 raw 16.16, generation 2 whole design units
         let uscale: i64 = if gen2 { 65536 } else { 1 };
         let naxes = c["naxes"].as_u64().unwrap() as usize;
@@ -1254,7 +1388,7 @@ fn replay(cases: &str, out: &str, dump_dir: Option<&str>) {
             r.instances += 1;
             match run_instance(&font, &user) {
                 Inst::Ok(o, coords) => {
-                    let spec = SpecSide { expect: c["expect"].get(ui), norm: c["norm"].get(ui), ntol: ntol.clone() };
+                    let spec = SpecSide { expect: c["expect"].get(ui), norm: c["norm"].get(ui), ntol: ntol.clone(), kinds: c.get("kinds"), stems: c.get("stems") };
                     emit_instance(&mut r, &case, &src, gvar, &hvar, mvar.as_ref(), &user, &o, &coords, 64, &spec)
                 }
                 Inst::Err(e) => {
@@ -1329,7 +1463,7 @@ fn record_font(r: &mut Rec, f: &VarFont, users: &[Vec<i32>], glyph_limit: usize)
         r.instances += 1;
         match run_instance(data, user) {
             Inst::Ok(o, coords) => {
-                let spec = SpecSide { expect: None, norm: None, ntol: json!([]) };
+                let spec = SpecSide { expect: None, norm: None, ntol: json!([]), kinds: None, stems: None };
                 emit_instance(r, &case, &src, gvar, &hvar, mvar.as_ref(), user, &o, &coords, glyph_limit, &spec)
             }
             Inst::Err(e) => {
